@@ -247,6 +247,9 @@ class BGP(protocol.Protocol):
                     self.fsm.header_error(suberror=e.sub_error)
                     return False
             elif msg_type in (bgp_cons.MSG_ROUTEREFRESH, bgp_cons.MSG_CISCOROUTEREFRESH):
+                if len(msg) >= 4:
+                    # anything shorter is not a ROUTE-REFRESH message; count it once, whatever decoding makes of it
+                    self.msg_recv_stat['RouteRefresh'] += 1
                 route_refresh_msg = RouteRefresh().parse(msg)
                 self._route_refresh_received(msg=route_refresh_msg, msg_type=msg_type)
             else:
@@ -275,6 +278,9 @@ class BGP(protocol.Protocol):
         """Called when a BGP Update message was received."""
         # TODO: Need to convert `self.add_path_ipv4_receive` and `self.add_path_ipv4_send` into a unified
         #  `afi_add_path` format.
+        if len(msg) >= 4:
+            # anything shorter is not an UPDATE message; count it once, whatever decoding makes of it
+            self.msg_recv_stat['Updates'] += 1
         result = Update().parse(timestamp, msg, self.fourbytesas, afi_add_path={})
         if result['sub_error']:
             msg = {
@@ -287,7 +293,6 @@ class BGP(protocol.Protocol):
             self.handler.on_update_error(self, timestamp, msg)
 
             LOG.error('[%s] Update message error: sub error=%s', self.factory.peer_addr, result['sub_error'])
-            self.msg_recv_stat['Updates'] += 1
             self.fsm.update_received()
             return
 
@@ -316,7 +321,6 @@ class BGP(protocol.Protocol):
                 # LOG.info(msg)
         self.handler.update_received(self, timestamp, msg)
 
-        self.msg_recv_stat['Updates'] += 1
         self.fsm.update_received()
 
     def send_update(self, msg):
@@ -586,7 +590,6 @@ class BGP(protocol.Protocol):
         :param msg: msg content
         :param msg_type: message type 5 or 128
         """
-        self.msg_recv_stat['RouteRefresh'] += 1
         LOG.info(
             '[%s]Route Refresh message received, afi=%s, res=%s, safi=%s',
             self.factory.peer_addr, msg[0], msg[1], msg[2])
